@@ -155,7 +155,7 @@ def safe_str(e):
     try: return str(e)
     except Exception: return '<%s>' % ', '.join(type(a).__name__ for a in getattr(e, 'args', ()))
 
-class Timeout(Exception): pass
+class Timeout(BaseException): pass
 def _alarm(sig, frm): raise Timeout()
 
 def solve(assertions, negated_goal, timeout_ms):
@@ -205,7 +205,7 @@ def run_instance(ob, iid, case, tier, seed, default_timeout=120):
     signal.signal(signal.SIGALRM, _alarm)
     signal.alarm(int(tmo * 4 + 60))
     try:
-        if ob.cls == 'E':
+        if ob.cls == 'E' or ob.native:
             _run_enum(ob, case, res)
         else:
             _run_symbolic(ob, case, res, tmo, seed)
@@ -223,7 +223,7 @@ def run_instance(ob, iid, case, tier, seed, default_timeout=120):
 
 def _run_enum(ob, case, res):
     import itertools
-    dom = ob.domain(case) if callable(ob.domain) else ob.domain
+    dom = (ob.domain(case) if callable(ob.domain) else ob.domain) or {}
     names = list(dom)
     n = 0
     for point in itertools.product(*[list(dom[k]) for k in names]):
